@@ -676,6 +676,8 @@ def analyse_mrun(s, solver_name, kind, npts, calls, callio, io, events, rounds, 
     # ---- every cost argument after a collapse: first failure of every relation
     for ri, r in enumerate(rels):
         for n in range(r["ncalls"], len(calls)):
+            if any(v != v for v in calls[n]):
+                continue      # a point with NaN entries (all weight of a measure gone: positions 0/0) admits no verdict on equalities
             if not mrel_holds(r, calls[n], npts):
                 first_bad[ri] = n
                 break
